@@ -9,7 +9,7 @@ D=/verif/seeded/$ID; mkdir -p $D
 cd $W
 cp patch.diff $D/patch.diff
 demo=$(ls demo*.py | head -1); cp $demo $D/
-git checkout -q -- mouette; git clean -fdq mouette
+git checkout -q -- mouette; git clean -fdq mouette; git checkout -q --detach $(git -C /repo rev-parse HEAD)
 PYTHONPATH=$W /venv/bin/python -W ignore $demo > /tmp/me/demo_clean.txt 2>&1; rc_clean=$?
 git apply patch.diff || { echo "patch does not apply"; exit 3; }
 PYTHONPATH=$W /venv/bin/python -W ignore $demo > /tmp/me/demo_mut.txt 2>&1; rc_mut=$?
